@@ -44,7 +44,8 @@ def make_positions(rng, h, origin, layout, N, ndim, ppp):
     s = s - np.floor(s)
     if layout == "random" and rng.random() < 0.3:
         # some particles recorded in a neighbouring image (unwrapped style) on periodic axes
-        shift = rng.integers(-1, 2, size=(N, ndim)) * (rng.random((N, 1)) < 0.3)
+        far = 4 if rng.random() < 0.3 else 2       # now and then several box lengths away
+        shift = rng.integers(1 - far, far, size=(N, ndim)) * (rng.random((N, 1)) < 0.3)
         s = s + shift * np.asarray(ppp)[None, :]
     return s @ h + origin[None, :]
 
@@ -108,13 +109,30 @@ class Config:
                 s = np.linalg.solve(h.T, (self.frames[t] - origin).T).T
                 self.frames[t] = s @ ht + ot
                 self.hs[t], self.origins[t] = ht, ot
+        # per-frame particle numbers: constant, or shrinking / growing from frame to frame
+        # (frame t keeps the first Ns[t] particles; ids and types are those of the prefix)
+        self.Ns = [N] * T
+        if r.get("nvary") and not self.exact:
+            for t in range(1, T):
+                self.Ns[t] = int(rng.integers(max(3, min(N, 4)), N + 1))
+                self.frames[t] = self.frames[t][: self.Ns[t]]
+        self.Nmin = min(self.Ns)
         types = np.concatenate([np.arange(1, K + 1), rng.integers(1, K + 1, size=max(0, N - K))])[:N]
         self.types = rng.permutation(types).astype(int)
+        # per-frame species: the same for every frame, or reassigned from frame to frame
+        # (reactive / semi-grand-canonical runs); every species keeps at least one particle
+        # among the particles every frame has
+        self.types_f = [self.types] * T
+        if r.get("tvary") and not self.exact and self.Nmin >= K:
+            for t in range(1, T):
+                head = rng.permutation(np.arange(1, K + 1))
+                tail = rng.integers(1, K + 1, size=N - K)
+                self.types_f[t] = np.concatenate([head, tail]).astype(int)
         self.Lmin = float(min(np.min(np.abs(np.diag(x))) for x in self.hs))
         self.tables = [self._table(p, self.hs[t]) for t, p in enumerate(self.frames)]
 
     def _table(self, pos, h):
-        N = self.N
+        N = len(pos)
         D = np.zeros((N, N))
         smax = 0.0
         for i in range(N):
@@ -134,7 +152,7 @@ class Config:
         for D, smax in self.tables:
             if smax > 0.5 - 1e-9:
                 return False
-            for i in range(self.N):
+            for i in range(D.shape[0]):
                 d = np.sort(np.delete(D[i], i))
                 if d.size and d[0] < tol:
                     return False
@@ -157,7 +175,7 @@ class Config:
     def expect_nearest(self, t, n):
         D = self.tables[t][0]
         out = []
-        for i in range(self.N):
+        for i in range(D.shape[0]):
             order = [j for j in np.argsort(D[i], kind="stable") if j != i][:n]
             out.append([j + 1 for j in order])
         return out
@@ -165,8 +183,8 @@ class Config:
     def expect_cutoff(self, t, rc):
         D = self.tables[t][0]
         out = []
-        for i in range(self.N):
-            js = [j for j in range(self.N) if j != i and D[i, j] <= rc]
+        for i in range(D.shape[0]):
+            js = [j for j in range(D.shape[0]) if j != i and D[i, j] <= rc]
             js.sort(key=lambda j: D[i, j])
             out.append([j + 1 for j in js])
         return out
@@ -175,9 +193,10 @@ class Config:
         D = self.tables[t][0]
         M = np.asarray(M, dtype=float)
         out = []
-        for i in range(self.N):
-            ti = self.types[i] - 1
-            js = [j for j in range(self.N) if j != i and D[i, j] <= M[ti, self.types[j] - 1]]
+        for i in range(D.shape[0]):
+            ty = self.types_f[t]
+            ti = ty[i] - 1
+            js = [j for j in range(D.shape[0]) if j != i and D[i, j] <= M[ti, ty[j] - 1]]
             js.sort(key=lambda j: D[i, j])
             out.append([j + 1 for j in js])
         return out
@@ -190,7 +209,7 @@ class Config:
             L = np.diag(self.hs[t]).copy()
             bounds = np.column_stack((self.origins[t], self.origins[t] + L))
             snaps.append(SingleSnapshot(
-                timestep=1000 * t, nparticle=self.N, particle_type=self.types.copy(),
+                timestep=1000 * t, nparticle=len(pos), particle_type=self.types_f[t][: len(pos)].copy(),
                 positions=pos.copy(), boxlength=L.copy(), boxbounds=bounds,
                 realbounds=None, hmatrix=self.hs[t].copy()))
         return Snapshots(nsnapshots=self.T, snapshots=snaps)
